@@ -191,3 +191,114 @@ Theorem C01_resize_excludes_critical_sections :
   thr (pr s) t = AH first d -> forall u : tid, ~ validated (thr (pr s) u).
 Proof. exact resize_excludes_critical_sections. Qed.
 Print Assumptions C01_resize_excludes_critical_sections.
+
+(* ---- linearizability THROUGH deferred migration (ConcLinLazy.v): the combined system over [lgood] tables, abstract contents [lholds]; the resize step may leave every stripe un-migrated (the real automatic doubling in normal mode, fast_double_is_resize_step); a linearizing operation migrates the stripes it locks ---- *)
+From LC Require Import LazyRefine ConcLinLazy.
+Theorem C01_linearizable_through_deferred_migration :
+  forall (c : config) (hash : N -> N),
+  cfg_ok c ->
+  forall (hp0 rc0 : N) (arrs0 : list nat) (t0 : table),
+  arrs_ok arrs0 ->
+  lgood c hash t0 ->
+  bhp (cur t0) = hp0 ->
+  forall s : cstate,
+  creachL c hash hp0 rc0 arrs0 t0 s ->
+  legal (Lazy.lholds c t0) (lins (hist s)) (Lazy.lholds c (tbl s)) /\
+  (forall (t : tid) (op : dop) (r : dres) (h1 h2 : list hev),
+  hist s = h1 ++ HRes t op r :: h2 ->
+  exists ha hb hc : list hev,
+  h1 = ha ++ HInv t op :: hb ++ HLin t op r :: hc /\ quiet t hb /\ quiet t hc /\ tphase t ha PIdle) /\
+  (forall (t : tid) (op : dop) (r : dres) (h1 h2 : list hev),
+  hist s = h1 ++ HLin t op r :: h2 ->
+  exists ha hb : list hev, h1 = ha ++ HInv t op :: hb /\ quiet t hb /\ tphase t ha PIdle).
+Proof. exact linearizable_by_points_lazy. Qed.
+Print Assumptions C01_linearizable_through_deferred_migration.
+
+Theorem C01_linearizing_step_is_the_sequential_operation_lazy :
+  forall (c : config) (hash : N -> N),
+  cfg_ok c ->
+  forall (hp0 rc0 : N) (arrs0 : list nat) (t0 : table),
+  arrs_ok arrs0 ->
+  forall (s : cstate) (t : tid) (sn : snap) (sa x : nat) (r : list nat) (op : dop)
+  (tbl' : table) (rs : dres),
+  CInvL c hash hp0 rc0 arrs0 t0 s ->
+  thr (pr s) t = CS sn sa (x :: r) ->
+  lin_data c hash (sh sn) (tbl s) op = Some (tbl', rs) ->
+  sh sn = hashpower (tbl s) /\
+  lgood c hash tbl' /\
+  bhp (cur tbl') = bhp (cur (tbl s)) /\
+  spec_step (Lazy.lholds c (tbl s)) op rs (Lazy.lholds c tbl') /\
+  match op with
+  | DLookup k g =>
+  match rs with
+  | RLookup o => lookup_fn c hash false (tbl s) k g = (tbl', o)
+  | RUprase _ _ => False
+  end
+  | DUprase k v g =>
+  match rs with
+  | RLookup _ => False
+  | RUprase i lg => exists p : N * N, uprase_gen c hash false (tbl s) k v g = (tbl', inr (i, lg, p))
+  end
+  end.
+Proof. exact lin_step_specL. Qed.
+Print Assumptions C01_linearizing_step_is_the_sequential_operation_lazy.
+
+Theorem C01_present_key_never_reported_absent_lazy :
+  forall (c : config) (hash : N -> N),
+  cfg_ok c ->
+  forall (hp0 rc0 : N) (arrs0 : list nat) (t0 : table),
+  arrs_ok arrs0 ->
+  lgood c hash t0 ->
+  bhp (cur t0) = hp0 ->
+  forall (s : cstate) (l1 : list (dop * dres)) (k : N) (g : Z -> Z * bool) (l2 : list (dop * dres)),
+  creachL c hash hp0 rc0 arrs0 t0 s ->
+  lins (hist s) = l1 ++ (DLookup k g, RLookup None) :: l2 ->
+  forall m : contents, legal (Lazy.lholds c t0) l1 m -> forall v : Z, ~ m k v.
+Proof. exact lookup_none_absent_lazy. Qed.
+Print Assumptions C01_present_key_never_reported_absent_lazy.
+
+Theorem C01_automatic_doubling_is_a_resize_step :
+  forall (c : config) (hash : N -> N),
+  cfg_ok c ->
+  forall t : table,
+  lgood c hash t ->
+  (bhp (cur t) + 1 < 60)%N ->
+  ~ maxed t (bhp (cur t) + 1) ->
+  let t' := fast_double_body c hash false t (bhp (cur t) + 1) in
+  resize_ok c hash t t' (bhp (cur t) + 1) /\
+  (nothrow c = true ->
+  lf_lt_mlf c t = false -> cuckoo_fast_double c hash false t (bhp (cur t)) = (t', inr St_ok)) /\
+  ((kmax c <= hashsize (bhp (cur t)))%N ->
+  ~ all_migrated t' /\
+  ~ good c hash t' /\
+  (forall l : N, (l < kmax c)%N -> mig (lock_at t' l) = false) /\
+  (forall (k : N) (x : Z), ~ holds (cur t') k x)).
+Proof. exact fast_double_is_resize_step. Qed.
+Print Assumptions C01_automatic_doubling_is_a_resize_step.
+
+Theorem C01_finishing_migration_is_a_resize_step :
+  forall (c : config) (hash : N -> N),
+  cfg_ok c ->
+  forall t : table,
+  lgood c hash t ->
+  resize_ok c hash t (rehash_with_workers c hash t) (bhp (cur t)) /\
+  all_migrated (rehash_with_workers c hash t).
+Proof. exact rww_is_resize_step. Qed.
+Print Assumptions C01_finishing_migration_is_a_resize_step.
+
+Theorem C01_rehash_is_a_resize_step :
+  forall (c : config) (hash : N -> N),
+  cfg_ok c ->
+  forall (t : table) (n : N) (t' : table) (r : exn + bool),
+  lgood c hash t ->
+  limC c (mhp t) ->
+  destructive c = false ->
+  cuckoo_rehash c hash false t n = (t', r) -> resize_ok c hash t t' (bhp (cur t')).
+Proof. exact rehash_is_resize_step. Qed.
+Print Assumptions C01_rehash_is_a_resize_step.
+
+Theorem C01_settled_system_is_a_subsystem :
+  forall (c : config) (hash : N -> N) (s s' : cstate),
+  good c hash (tbl s) -> cstep c hash s s' -> cstepL c hash s s'.
+Proof. exact cstep_cstepL. Qed.
+Print Assumptions C01_settled_system_is_a_subsystem.
